@@ -437,7 +437,14 @@ func (w *W) violationLocked(e *Engine, kind, msg string) {
 		return
 	}
 	e.violSeen[key] = true
+	if len(e.violations) >= e.opts.MaxViolations {
+		return
+	}
 	e.violations = append(e.violations, &Violation{Kind: kind, Msg: msg, Harness: e.entry.Name(), Decisions: append([]int32(nil), w.decisions...)})
+	if len(e.violations) >= e.opts.MaxViolations {
+		e.stopFlag.Store(true)
+		e.queue.stop()
+	}
 }
 
 func (w *W) concretizeTrace(env map[string]uint64) []TraceOut {
